@@ -9,7 +9,7 @@ sys.path.insert(0, os.path.dirname(os.path.dirname(os.path.abspath(__file__))))
 def search_numbers(job):
     from bounded import c13_numbers as N
     warnings.simplefilter("ignore")
-    for kind in ("currency", "fraction", "decimal", "percent"):
+    for kind in ("base", "currency", "fraction", "decimal", "percent", "scientific"):
         for seed in (1, 2):
             case = {"kind": kind, "seed": seed, "n": 800}
             r = N.run_case(case)
